@@ -559,8 +559,13 @@ def autoforwards_hint(func, args, kwargs):
 
 
 def autoforwards_ast(func, func_ast, sig, args=(), kwargs={}):
+    try:
+        visitor = CallListerVisitor(func_ast)
+    except RecursionError:
+        # an expression nested deeper than the interpreter's stack allows
+        raise UnknownForwards('Source is nested too deeply')
     sigs = list(forward_signatures(
-        func, CallListerVisitor(func_ast),
+        func, visitor,
         args, kwargs, sig))
     if sigs:
         try:
